@@ -499,6 +499,7 @@ ssize_t simk_read(int fd, void *buf, size_t count)
 		errno = EAGAIN; return -1;
 	}
 	size_t n = std::min(count, c.inbound.size());
+	if (c.chunk_all > 0) n = std::min(n, c.chunk_all);
 	if (!c.chunk_plan.empty()) { size_t lim = c.chunk_plan.front(); c.chunk_plan.pop_front(); if (lim == 0) lim = 1; n = std::min(n, lim); }
 	memcpy(buf, c.inbound.data(), n);
 	c.inbound.erase(0, n);
